@@ -277,6 +277,7 @@ def check_C10(ctx, tier):
     RR.rule_R_PURE(ctx, ctx.repo)          # the package never changes a keymap (its typed / flat / sentinel settings) that the caller handed in
     RR.rule_W_KEY_keygen(ctx, ctx.repo)    # klepto.keygen: key() answers for the arguments provided last, whatever accessor ran in between
     K.rule_K_RED(ctx, ctx.repo)            # a copied / pickled keymap keeps its whole chain and options (a + b copies its operands)
+    K.rule_K_ENCFALLBACK(ctx, ctx.repo)    # a named serializer / encoding / algorithm is used or the call has no key: never a repr() stand-in
     ctx.assume('injectivity of repr/str/pickle of the argument values and fast-type unwrapping collisions are not decided')
     return ('Every positional argument and every (name, value) keyword item reaches the key whole on every path of keymap.encode/encrypt; '
             'typed keys append the types of all positional and all keyword values; a configured sentinel separates every two adjacent '
@@ -291,6 +292,7 @@ def check_C17(ctx, tier):
     K.rule_K_OWN(ctx, ctx.repo)     # a key must not depend on what this process keyed before (module-level state on the key path)
     K.rule_K_BYREF(ctx, ctx.repo)   # dill pickles by reference
     K.rule_K_RED(ctx, ctx.repo)     # a keymap that travelled to the other session inside a pickled decorator keys as it did here
+    K.rule_K_ENCFALLBACK(ctx, ctx.repo)   # no fallback from a named algorithm to the per-process builtin hash / repr
     S.rule_S_LOAD_DUMP(ctx, ctx.repo)   # the key is handed to the archive as the one object it is (a raw key is a tuple: never unpacked into several keys)
     RR.rule_R_STATELESS(ctx, ctx.repo)  # rounding (the first step of every key) keeps no state between calls
     RR.rule_R_GUARD_STR_KW(ctx, ctx.repo)   # ... and rounds floats only (round(Decimal, n) follows the thread's decimal context)
